@@ -327,7 +327,7 @@ func runC15(ctx *core.Ctx) {
 			in := env.HostileInput(r)
 			switch r.Intn(10) {
 			case 0:
-				in = gen.Pick(r, []string{"", " ", "\n", "x\n", "<p>hello</p>\n", "\n\n"})
+				in = gen.Pick(r, []string{"", " ", "\n", "x\n", "<p>hello</p>\n", "\n\n", "\r", "\r\n", " \r\n\t", "\r\n\r\n", "\f", "\x0b", "\u00a0", "\r\nx"})
 			case 1:
 				var b strings.Builder
 				for b.Len() < 70000 {
